@@ -54,3 +54,9 @@ def run_c03(prop="C03", tier="quick"):
     """C03 view: 'the integer functions built on them return the exact signed result' also when the destination is one of the sources
     (in-place use is part of the property's quantifier): R-STALE / R-CLOBBER findings inside the mpz functions the property names."""
     return scope_to_anchors(run(prop, tier, rules=("R-STALE", "R-CLOBBER")), prop)
+
+
+def run_c13(prop="C13", tier="quick"):
+    """C13 view (format rule "at most prec+1 limbs"): R-EXTENT findings - a write into an mpf destination beyond the prec+1 limbs its block
+    holds, or a size stored that exceeds them - inside the files the property is anchored in."""
+    return scope_to_anchors(run(prop, tier, rules=("R-EXTENT",)), prop)
